@@ -89,6 +89,18 @@ var byteRules = map[string]byteRule{
 	"Program.Code":                                         {"code", 10000},
 	"BtcTxIn.SignatureScript":                              {"data", 10000},
 	"BtcTxOut.PkScript":                                    {"data", 10000},
+	// p2p messages
+	"FilterAdd.Data":     {"data", 520},
+	"FilterLoad.Filter":  {"data", 36000},
+	"FilterLoad.TxTypes": {"raw", 64},
+	"TxFilterLoad.Data":  {"data", 50000},
+	"DAddr.Cipher":       {"data", 256},
+	"DAddr.Signature":    {"sig", 64},
+	"MerkleBlock.Flags":  {"data", 1250},
+	"MerkleProof.Flags":  {"data", 1250},
+	"NetAddress.IP":      {"ip", 16},
+	"ResetView.Sponsor":  {"key", 33},
+	"ResetView.Sign":     {"sig", 64},
 }
 
 func ruleFor(typeName, field string) byteRule {
@@ -183,7 +195,13 @@ func (f *Filler) value(v reflect.Value, owner, field string) {
 		if t.Elem().Kind() == reflect.Uint8 {
 			b := f.bytes(ruleFor(owner, field), field)
 			nv := reflect.MakeSlice(t, len(b), len(b))
-			reflect.Copy(nv, reflect.ValueOf(b))
+			if t.Elem() == reflect.TypeOf(byte(0)) {
+				reflect.Copy(nv, reflect.ValueOf(b))
+			} else { // named byte types ([]TxType ...)
+				for i := range b {
+					nv.Index(i).SetUint(uint64(b[i]))
+				}
+			}
 			if b == nil {
 				nv = reflect.Zero(t)
 			}
@@ -363,6 +381,11 @@ func (f *Filler) bytes(r byteRule, field string) []byte {
 		}
 	case "raw":
 		return rapid.SliceOfN(rapid.Byte(), 0, 12).Draw(t, field)
+	case "ip":
+		if rapid.Bool().Draw(t, field+"#v4") {
+			return rapid.SliceOfN(rapid.Byte(), 4, 4).Draw(t, field)
+		}
+		return rapid.SliceOfN(rapid.Byte(), 16, 16).Draw(t, field)
 	default:
 		return DataBytes(r.max, f.Budget).Draw(t, field)
 	}
